@@ -1286,3 +1286,73 @@ Proof.
   - rewrite dumps_obj in *. apply parse_key_value_ok_proof; try assumption; try reflexivity.
     apply obj_items_bal. exact Hok.
 Qed.
+
+(* ------------------------------------------------------------------ the ids file of the command *)
+Lemma split_char_lines ls : Forall (fun l => ~ In NL l) ls ->
+  split_char NL (flat_map (fun l => l ++ [NL]) ls) = ls ++ [[]].
+Proof.
+  intros F. induction F as [|l ls Hl F IH]; [reflexivity|].
+  cbn [flat_map]. rewrite <- app_assoc. cbn [app]. rewrite split_char_app by exact Hl. rewrite IH. reflexivity.
+Qed.
+
+Lemma split_lines_lines ls : Forall (fun l => ~ In NL l) ls ->
+  split_lines (flat_map (fun l => l ++ [NL]) ls) = ls.
+Proof.
+  intros F. unfold split_lines. rewrite (split_char_lines ls F), rev_app_distr. cbn [rev app]. apply rev_involutive.
+Qed.
+
+Definition ids_line_body (l : ids_line) : text :=
+  match snd l with None => fst l | Some extra => fst l ++ TAB :: extra end.
+
+Lemma print_ids_file_lines ls : print_ids_file ls = flat_map (fun l => l ++ [NL]) (map ids_line_body ls).
+Proof.
+  unfold print_ids_file. induction ls as [|[i [e|]] ls IH]; [reflexivity| |]; cbn [flat_map map]; rewrite IH;
+    unfold print_ids_line, ids_line_body; cbn [fst snd]; [|reflexivity].
+  repeat (rewrite <- app_assoc; cbn [app]). reflexivity.
+Qed.
+
+Lemma strip_self p M : M <> [] -> p (hd 0 M) = false -> p (last M 0) = false -> strip p M = M.
+Proof.
+  intros. pose proof (strip_mid p [] M [] (Forall_nil _) (Forall_nil _)) as S. rewrite app_nil_r in S. apply S; assumption.
+Qed.
+
+Lemma not_hash_line c rest (X : list text) : c <> 35 ->
+  match c :: rest with 35 :: _ => [] | _ => X end = X.
+Proof.
+  intros H. destruct c as [|p|p]; try reflexivity.
+  do 6 (destruct p as [p|p|]; try reflexivity). congruence.
+Qed.
+
+Lemma read_line_ok l : ids_line_ok l ->
+  match ids_line_body l with
+  | 35 :: _ => []
+  | _ => [hd [] (split_char TAB (strip is_space (ids_line_body l)))]
+  end = [fst l].
+Proof.
+  destruct l as [i [e|]]; intros [(Hne & Hh & Hl & Ht & Hn & Hc) He]; unfold ids_line_body; cbn [fst snd] in *.
+  - destruct He as (Ene & El & _).
+    assert (E : strip is_space (i ++ TAB :: e) = i ++ TAB :: e).
+    { apply strip_self.
+      - destruct i; [congruence|discriminate].
+      - rewrite hd_app_nonempty by exact Hne. exact Hh.
+      - change (i ++ TAB :: e) with (i ++ [TAB] ++ e). rewrite app_assoc, last_app_nonempty by exact Ene. exact El. }
+    rewrite E, split_char_app by exact Ht.
+    destruct i as [|c i']; [congruence|]. cbn [app hd] in *. destruct c as [|p|p]; try reflexivity; do 6 (destruct p as [p|p|]; try reflexivity); congruence.
+  - rewrite strip_self by assumption. rewrite split_char_none by exact Ht.
+    destruct i as [|c i']; [congruence|]. cbn [hd] in *. destruct c as [|p|p]; try reflexivity; do 6 (destruct p as [p|p|]; try reflexivity); congruence.
+Qed.
+
+Lemma ids_line_body_no_nl l : ids_line_ok l -> ~ In NL (ids_line_body l).
+Proof.
+  destruct l as [i [e|]]; intros [(Hne & Hh & Hl & Ht & Hn & Hc) He]; unfold ids_line_body; cbn [fst snd] in *; [|exact Hn].
+  destruct He as (_ & _ & En). apply not_in_app; [exact Hn|]. intros [H|H]; [discriminate|contradiction].
+Qed.
+
+(* the command reads back exactly the ids written in the first column, whatever follows the tab *)
+Theorem read_ids_file_ok_proof ls : Forall ids_line_ok ls -> read_ids_file (print_ids_file ls) = map fst ls.
+Proof.
+  intros F. unfold read_ids_file. rewrite print_ids_file_lines, split_lines_lines.
+  - induction F as [|l ls Hl F IH]; [reflexivity|]. cbn [map flat_map]. rewrite (read_line_ok l Hl), IH. reflexivity.
+  - apply Forall_forall. intros b Hb. apply in_map_iff in Hb. destruct Hb as [l [<- Hin]].
+    rewrite Forall_forall in F. apply ids_line_body_no_nl. apply F. exact Hin.
+Qed.
